@@ -371,7 +371,8 @@ def discharge(mod, pid, cfg, o, A, B, timeout_ms, seed, path, swept_goal=None):
                 res = _fp.valid_fp(goal, AA, to)
         elif o.replayable and orec['size'] > cfg.get('guided_min_size', 40):
             lins = (path.ctx.memo if path is not None else _ctx_mod.cur().memo).get('linsolves')
-            genv, how = prove.guided_cex(goal, AA, B.sampler(seed + 1), defined=not o.meta.get('no_definedness', False), linsolves=lins)
+            genv, how = prove.guided_cex(goal, AA, B.sampler(seed + 1), defined=not o.meta.get('no_definedness', False), linsolves=lins,
+                                         tries=cfg.get('guided_tries', 120))
             if genv is not None:
                 res = prove.Result('cex', env=genv, note='model proposed by simulation, ' + (
                     'decided sat by z3 with pinned inputs' if how == 'z3-pinned' else
